@@ -66,7 +66,7 @@ func ruleBuilderPurity(c *eng.Ctx) {
 			sl := eng.SliceInter(r.Results[0], nil, cl)
 			fromClone := false
 			for v := range sl {
-				if call, ok := v.(*ssa.Call); ok && call.Call.StaticCallee() == clone {
+				if call, ok := v.(*ssa.Call); ok && eng.StaticCallee(call) == clone {
 					fromClone = true
 				}
 				if v == ssa.Value(fn.Params[0]) {
@@ -111,7 +111,7 @@ func ruleTerminalClose(c *eng.Ctx) {
 		}
 		var calls []ssa.CallInstruction
 		for _, ci := range eng.Calls(fn, false, func(string, ssa.CallInstruction) bool { return true }) {
-			if opensReader(ci.Common().StaticCallee(), ensure, closeFn, 0) {
+			if opensReader(eng.StaticCallee(ci), ensure, closeFn, 0) {
 				calls = append(calls, ci)
 			}
 		}
@@ -125,7 +125,7 @@ func ruleTerminalClose(c *eng.Ctx) {
 		}
 		hasDeferClose := func(b *ssa.BasicBlock) bool {
 			for _, in := range b.Instrs {
-				if d, ok := in.(*ssa.Defer); ok && d.Call.StaticCallee() == closeFn {
+				if d, ok := in.(*ssa.Defer); ok && eng.StaticCallee(d) == closeFn {
 					return true
 				}
 			}
@@ -202,10 +202,10 @@ func opensReader(f, ensure, closeFn *ssa.Function, depth int) bool {
 	opens := false
 	for _, b := range f.Blocks {
 		for _, in := range b.Instrs {
-			if d, ok := in.(*ssa.Defer); ok && d.Call.StaticCallee() == closeFn {
+			if d, ok := in.(*ssa.Defer); ok && eng.StaticCallee(d) == closeFn {
 				return false
 			}
-			if ci, ok := in.(ssa.CallInstruction); ok && opensReader(ci.Common().StaticCallee(), ensure, closeFn, depth+1) {
+			if ci, ok := in.(ssa.CallInstruction); ok && opensReader(eng.StaticCallee(ci), ensure, closeFn, depth+1) {
 				opens = true
 			}
 		}
@@ -314,7 +314,7 @@ func ruleResourcePairing(c *eng.Ctx) {
 						walkRefs(x, d+1)
 					case ssa.CallInstruction:
 						// passed to a constructor that keeps it (e.g. NewReader(file))
-						if f := x.Common().StaticCallee(); f != nil && eng.InModule(f) && strings.HasPrefix(f.Name(), "New") {
+						if f := eng.StaticCallee(x); f != nil && eng.InModule(f) && strings.HasPrefix(f.Name(), "New") {
 							escapes = true
 						}
 					}
@@ -602,7 +602,7 @@ func rulePageStamp(c *eng.Ctx) {
 			}
 			fromResolve := false
 			for v := range eng.SliceInter(st.Val, nil, cluster) {
-				if call, ok := v.(*ssa.Call); ok && call.Call.StaticCallee() == resolve && resolve != nil {
+				if call, ok := v.(*ssa.Call); ok && eng.StaticCallee(call) == resolve && resolve != nil {
 					fromResolve = true
 				}
 			}
